@@ -496,6 +496,28 @@ var seqMutators = []seqMutator{
 		Go: func(in *seqInst) string { return fmt.Sprintf("_ = vfs.Chdir(%q)", in.t.d.px("/a")) },
 	},
 	{
+		// the current directory set through a handle that was opened by a relative name:
+		// what the handle remembers of its name must not become the current directory as it is
+		Name: "after-fchdir-relative-handle", Show: `vfs.Chdir("/a"); f, _ := vfs.Open("d"); f.Chdir()`,
+		do: func(in *seqInst) error {
+			if err := in.v.Chdir(in.t.d.px("/a")); err != nil {
+				return err
+			}
+
+			f, err := in.v.Open("d")
+			if err != nil {
+				return err
+			}
+
+			defer f.Close()
+
+			return f.Chdir()
+		},
+		Go: func(in *seqInst) string {
+			return fmt.Sprintf("_ = vfs.Chdir(%q)\n\tif fd, err := vfs.Open(\"d\"); err == nil {\n\t\t_ = fd.Chdir()\n\t\t_ = fd.Close()\n\t}", in.t.d.px("/a"))
+		},
+	},
+	{
 		Name: "after-remove-f", Show: `base.Remove("/a/f")`,
 		do: func(in *seqInst) error { return in.base.Remove(in.bp("/a/f")) },
 		Go: func(in *seqInst) string { return fmt.Sprintf("_ = base.Remove(%q)", in.bp("/a/f")) },
